@@ -19,11 +19,6 @@ def intNumeral (tok : Bytes) : Option Int :=
   | 43 :: ds => if !ds.isEmpty && allDigits 10 ds then some (digitsValue 10 ds) else none
   | ds => if !ds.isEmpty && allDigits 10 ds then some (digitsValue 10 ds) else none
 
-/-- the one place where the two readings of "prefix" differ: a sign followed by `0` and more -/
-def signPrefixZone (tok : Bytes) : Bool :=
-  match tok with
-  | s :: 48 :: _ :: _ => s == 45 || s == 43
-  | _ => false
 
 /-- what the conversion must answer -/
 def intExpected (tok : Bytes) : Except ConvErr Int :=
